@@ -6,6 +6,14 @@ sys.path.insert(0, ROOT)
 TECH = "bounded symbolic execution of the real Python code (CrossHair 0.0.110) with z3 deciding every path; counterexamples replayed concretely"
 
 CHECKS = {
+    "C07": dict(
+        text="(a) DNF: for all 1458 and/or formula shapes of depth<=3 (node kinds symbolic) z3 proves, per shape, that the normal form is an or-of-ands of the original "
+             "leaves and is equivalent to the formula for ALL 256 truth assignments at once (one solver query per shape, no enumeration of assignments). "
+             "(b) run time: for every and/or tree over 2-3 (thorough 4) distinct leaves, for `match` on events and `await`/`when` on flows, for every event sequence "
+             "(all orders, repeats, irrelevant events) and every outcome of the interpreter's random tie-breaks, the statement after the group fires at exactly the first "
+             "step at which the formula holds on the events seen, once.",
+        note="Programs are built from source text per path (parse untraced, expansion + run_to_completion traced). Outside: >4 leaves, a leaf written twice, payloads.",
+        ref="4/C07"),
     "C13": dict(
         text="(a) error path: for every exception shape the parsers can raise (13-entry pool incl. Lark errors with line None/-1/out of range or no position at all), "
              "every file of 0..3 lines, both Colang versions, every path of the real loader handler + message formatter ends in ColangParsingError naming the file; a 36-file "
